@@ -8,6 +8,8 @@ the implementation's outputs as Gallina literals, and let Coq's vm_compute compa
 the model; (5) classify what broke, print VIOLATION / KNOWN-FINDING lines, write the evidence.
 """
 import fcntl
+import logging
+logging.disable(logging.CRITICAL)      # the library warns on every naive datetime / open ring
 import json
 import os
 import random
